@@ -358,6 +358,6 @@ Corollary parse_equation_code_spec_b eq syms :
     equation_text eq = Some std /\ code_text eq = Some code /\
     equation_symbols std code terms = Ret syms.
 Proof.
-  intros H Hb Hv Hg. unfold text_guard in Hg. apply andb_true_iff in Hg as [Ha Hf].
+  intros H Hb Hv Hg. unfold text_guard in Hg. apply andb_true_iff in Hg as [Ha Hf]. apply andb_true_iff in Ha as [_ Ha].
   apply (parse_equation_code_spec eq syms H Hb Hv (aligned_b_sound _ Ha) Hf).
 Qed.
